@@ -24,9 +24,9 @@ META = dict(
     text="Proved in Coq: a flush at any time changes no answer; replicas fed the same blocks under any flush/prune/restart schedules agree on all state keys, results and height "
          "(interpreter = any function of state keys); for every block history the incrementally maintained NEO, Policy, Designate and Management caches (committee, next-epoch committee, votesChanged, "
          "gas-per-vote, gas-per-block, register price, blocked accounts, fee settings, whitelisted fees, latest designation per role, contract states) are coherent with storage after every block, and a restart after ANY block (any number of restarts) "
-         "leaves the storage of the modelled contracts and every committee / validator / policy / getDesignatedByRole(role, any index) / getContract / whitelisted-fee answer unchanged after ANY continuation (simulation proof) — for the repaired code; for the unrepaired code the three counter-example histories (findings F7, F23, F47) are theorems. "
+         "leaves the storage of the modelled contracts and every committee / validator / policy / getDesignatedByRole(role, any index) / getContract / whitelisted-fee answer unchanged after ANY continuation (simulation proof), including GetGASPerBlock(index) for every index and the holder-reward sum over the gas-per-block history, whose cache may hold several records of one index (last appended wins; the reading first-of-equal-indices is refuted by theorem) — for the repaired code; for the unrepaired code the three counter-example histories (findings F7, F23, F47) are theorems. "
          "Tied to the real node by a replica differential: the same blocks on memory/LevelDB/BoltDB replicas with random flush points (hook VerifPersist), KeepOnlyLatestState, "
-         "RemoveUntraceableBlocks+GC, SkipBlockVerification, VerifyTransactions off, every further bool/int node-local option found by reflection over config.Blockchain (SaveInvocations, SaveStorageBatch, GarbageCollectionPeriod, MemPoolSize, MempoolSubscriptionsEnabled, ...) toggled singly and in combinations, mempool junk and a restart at every height, histories including designations of several roles across blocks queried at historic heights, contract deploy/update/whitelist/destroy/redeploy sequences, NotaryAssisted transactions, Storage.Find / getAllCandidates / getContractHashes iterators whose values are held across Next (every option class, items flushed or re-read after a restart, the same read twice), calls with unusual arguments (iterators, pointers, self-referencing and deeply nested items, buffers around MaxSize), comparing state root, full contract storage, execution results and "
+         "RemoveUntraceableBlocks+GC, SkipBlockVerification, VerifyTransactions off, every further bool/int node-local option found by reflection over config.Blockchain (SaveInvocations, SaveStorageBatch, GarbageCollectionPeriod, MemPoolSize, MempoolSubscriptionsEnabled, ...) toggled singly and in combinations, mempool junk and a restart at every height, histories including designations of several roles across blocks queried at historic heights, contract deploy/update/whitelist/destroy/redeploy sequences, NotaryAssisted transactions, Storage.Find / getAllCandidates / getContractHashes settings updated several times within one block and used in the next, iterators whose values are held across Next (every option class, items flushed or re-read after a restart, the same read twice), calls with unusual arguments (iterators, pointers, self-referencing and deeply nested items, buffers around MaxSize), comparing state root, full contract storage, execution results and "
          "all getters at every height, and on every node the iterator answers against a plain Seek dump of the same node; plus the governance model against the source node's getters. Partial: the interpreter (VM, natives outside NEO/GAS/Policy/Notary/Designate/Management) is a parameter of the store theorems; "
          "the NEP-11/17 lists of Management and the Oracle/Notary settings caches are not modelled (compared on the real replicas only).",
     note="Trusted: Coq kernel + vm_compute, the hand-written models (tied by differential comparison only), the Go harness, the VerifPersist hook, ./check. "
